@@ -4,6 +4,7 @@ import (
 	"fmt"
 	"os"
 	"strings"
+	"time"
 )
 
 // GenC13: adversarial frame schedules of a seeded kind and length, handlers held.
@@ -14,13 +15,13 @@ func GenC13(r *RNG) *SrvPlan {
 	maxHdr := Pick(r, 256, 4096, 0)
 	p.Srv = SrvCfg{MaxConcurrentStreams: mcs, PingInterval: -1, MaxRequestBodySize: maxBody, MaxHeaderListSize: maxHdr}
 	p.Peer = PeerCfg{InitialWindow: 1 << 20, MaxFrameSize: -1, HeaderTableSize: -1, AutoWindow: true, ConnWindowBoost: 1 << 24, LinkCap: Pick(r, 0, 4096)}
-	kind := Pick(r, "rapid-reset", "half-open", "priority-idle", "continuation-flood", "continuation-long-field", "continuation-long-field-refused", "over-sent-body", "over-declared-body", "mis-declared-body", "ping-flood", "settings-flood", "mixed")
+	kind := Pick(r, "rapid-reset", "half-open", "priority-idle", "continuation-flood", "continuation-long-field", "continuation-long-field-refused", "over-sent-body", "over-declared-body", "mis-declared-body", "ping-flood", "settings-flood", "timeout-refill", "mixed")
 	n := Pick(r, 40, 150, 400)
 	if k := os.Getenv("VERIF_C13_KIND"); k != "" {
 		kind = k // development aid: pin the attack kind
 	}
 	if kind == "continuation-long-field" || kind == "continuation-long-field-refused" {
-		n = Pick(r, 150, 600, 1500)
+		n = Pick(r, 150, 400, 800)
 		p.Peer.LinkCap = 0 // its frames are larger than the capped link lets through at once
 	}
 	p.Trail = "c13:" + kind
@@ -43,6 +44,10 @@ func GenC13(r *RNG) *SrvPlan {
 			addReq(hdrs(rid, true), Op{Kind: "rst", Code: 8, Pad: -1, TableSize: -1})
 		case "half-open":
 			addReq(hdrs(rid, false))
+		case "timeout-refill":
+			// complete requests whose handlers outlive ReadTimeout: the server gives up on the streams, the handlers keep
+			// their slots, and the peer keeps asking
+			addReq(hdrs(rid, true))
 		case "priority-idle":
 			l := Lane{Name: fmt.Sprintf("prio%d", rid), After: rid - 1, Offender: kind, Ops: []Op{{Kind: "priority", StreamRef: 20001 + 2*i, Pad: -1, TableSize: -1}}}
 			p.Lanes = append(p.Lanes, l)
@@ -135,6 +140,12 @@ func GenC13(r *RNG) *SrvPlan {
 	p.PoolPol = r.Intn(2)
 	p.Strategy = genStrategy(r)
 	p.Strategy.Stay = Pick(r, 0.8, 0.95)
+	if kind == "timeout-refill" {
+		T := Pick(r, 200*time.Millisecond, time.Second)
+		p.Srv.ReadTimeout = T
+		p.Strategy.TimeRace = Pick(r, 0.01, 0.03)
+		p.Strategy.TimeSteps = []time.Duration{T + time.Millisecond, T / 2, T + time.Millisecond}
+	}
 	p.SelSeed = r.Uint64()
 	p.MaxSteps = 400000
 	return p
